@@ -1,7 +1,7 @@
 (* C11 — Happy-eyeballs attempts are paced, ordered, bounded and meet the deadline.
    Statements only; proofs in he/Proofs.v and he/ProofsPace.v (the two pacing clauses).
    Quantification as in C10. *)
-From HD Require Import common.Base he.Model he.Spec he.Proofs he.ProofsPace.
+From HD Require Import common.Base he.Model he.Spec he.Proofs he.ProofsPace he.Tcp he.TcpProofs.
 
 (* started in the given order, each candidate at most once, a later candidate never before an
    earlier one; every completion belongs to a started attempt, exactly its latency later *)
@@ -58,6 +58,45 @@ Check c11_monitor_partial : forall c tb atts,
   (s_order atts (he_obs c tb atts) && s_initial c atts (he_obs c tb atts)
    && s_deadline c (he_obs c tb atts)) = true.
 Print Assumptions c11_monitor_partial.
+
+(* ---- the configuration TcpConnecting::connect builds (he/Tcp.v): stagger delay derived as the
+   overall timeout divided by the number of addresses (floor, in ns) ---- *)
+
+(* the stagger delays of all candidates fit into the overall timeout *)
+Theorem c11_tcp_delay_fits : forall T n d,
+  tcp_delay (Some T) (N.of_nat n) = Some d -> (N.of_nat n * d <= T)%N.
+Proof. exact tcp_delay_fits. Qed.
+Check c11_tcp_delay_fits : forall T n d,
+  tcp_delay (Some T) (N.of_nat n) = Some d -> (N.of_nat n * d <= T)%N.
+Print Assumptions c11_tcp_delay_fits.
+
+(* candidate j is first polled no later than j * (T / n), hence (T > 0) before the overall deadline *)
+Theorem c11_tcp_start_bound : forall T conc tb atts j t,
+  In (j, t) (starts (tcp_connect (Some T) conc tb atts)) ->
+  (t <= N.of_nat j * (T / N.of_nat (length atts)))%N /\ ((0 < T)%N -> (t < T)%N).
+Proof. exact tcp_start_bound. Qed.
+Check c11_tcp_start_bound : forall T conc tb atts j t,
+  In (j, t) (starts (tcp_connect (Some T) conc tb atts)) ->
+  (t <= N.of_nat j * (T / N.of_nat (length atts)))%N /\ ((0 < T)%N -> (t < T)%N).
+Print Assumptions c11_tcp_start_bound.
+
+(* every candidate gets its turn unless the operation is over before: candidate j is polled by
+   j * (T / n) or the operation completed by then -- for EVERY concurrency, Some 0 included (an
+   empty task set ends the first wait at once: c11_tcp_conc0_example) *)
+Theorem c11_tcp_attempted : forall T conc tb atts j,
+  (j < length atts)%nat ->
+  let o := tcp_connect (Some T) conc tb atts in
+  let d := (T / N.of_nat (length atts))%N in
+  (exists t, start_of o j = Some t /\ (t <= N.of_nat j * d)%N)
+  \/ (exists td, snd (fst o) = Some td /\ (td <= N.of_nat j * d)%N).
+Proof. exact tcp_attempted. Qed.
+Print Assumptions c11_tcp_attempted.
+
+(* non-vacuity: T = 31 ns over 3 candidates, d = 10 (floor); concurrency Some 0 behaves like Some 1 *)
+Example c11_tcp_conc0_example :
+  tcp_connect (Some 31%N) (Some 0%nat) [] [mkAtt Never 0; mkAtt Never 0; mkAtt Succ 4]%N
+  = (ROk 2, Some 24%N, [EStart 0 0; EStart 1 10; EStart 2 20; EDone 2 24])%N.
+Proof. vm_compute. reflexivity. Qed.
 
 Example c11_example :
   mon_C11 (mkCfg (Some 3%N) (Some 20%N) (Some 1%nat)) [mkAtt Fail 5; mkAtt Succ 4; mkAtt Never 0]%N
